@@ -83,3 +83,15 @@ add_seed_selftest ()
     cp seeded/$s/patch.diff selftest/$pid/seed-$name.patch;
     sed -i "1i # seeded variant (sub-agent $s)\n# expect: $exp" selftest/$pid/seed-$name.patch
 }
+impall() { # impall Cxx : import every /tmp/wt/Cxx/_mut/N as the next free seeded/Cxx-K, print the new names, remove the worktree
+  p=$1; for d in /tmp/wt/$p/_mut/[0-9]*; do [ -f $d/patch.diff ] || continue; k=1; while [ -e seeded/$p-$k ]; do k=$((k+1)); done; mkdir -p seeded/$p-$k; cp -r $d/* seeded/$p-$k/; rm -f seeded/$p-$k/demo seeded/$p-$k/*.o; echo $p-$k; done; git -C /repo worktree remove --force /tmp/wt/$p; }
+prepn() { # prepn N Cxx ... : like prep, asking for N changes
+  n=$1; shift; for p in "$@"; do git -C /repo worktree add --detach /tmp/wt/$p HEAD -q 2>&1 | tail -1; python3 tools/agent_prompt.py $p $n > /tmp/wt/prompt-$p.txt; python3 - $p <<'PYEOF' >> /tmp/wt/prompt-$p.txt
+import json,sys,glob
+p=sys.argv[1]
+print("\nAlready explored by earlier work on this property (do NOT repeat these ideas or close variants of them; pick different functions / clauses / mechanisms). Each line is cut at 300 characters on purpose; the list is complete:")
+for d in sorted(glob.glob('/verif/seeded/%s-*'%p)):
+    m=json.load(open(d+'/meta.json'))
+    print(" - "+m.get('summary','')[:300].replace('\n',' '))
+PYEOF
+done; }
